@@ -96,6 +96,8 @@ async def run_history(rep, case, sub):
                 for r, sh in zip(script, op.get("shifts", [])):
                     if sh:
                         r["hook"] = (lambda s=sh: clock.advance(s))
+                if case.get("slow_login") and not cl.conn.frames:
+                    script[0]["sleep"] = case["slow_login"]
                 n0 = len(cl.conn.frames)
                 cl.conn.script.clear()
                 cl.conn.script.extend(script)
@@ -202,6 +204,8 @@ def _resolvable(a):
     if "ir" in a:
         a["ir"]["off"] = True
         a["ir"]["density"] = 100
+        a["ir"].pop("lonely_min", None)     # shapes for C15/C16 only: with them some requests have no stored key at all
+        a["ir"].pop("auto_temps", None)
         if a["ir"]["lens"] not in ("short", "mixed"):
             a["ir"]["lens"] = "short"
     return a
@@ -232,6 +236,29 @@ def strat_pairs_random():
                      client_cfgs([1, 2]), pair, st.integers(300_000, 2 ** 32 - 400_000), HOST_ZONES)
 
 
+def strat_dst_clock():
+    """Short histories whose clock sits in the hours around a UTC-offset change of the host zone (the repeated hour when
+    daylight saving ends is where 'local time -> epoch' conversions go wrong)."""
+    client_of = lambda k: 0 if ops.api_type(k) == 1 else 1  # noqa
+    return st.builds(lambda cfg, oplist, zt: {"clients": cfg, "t0": zt[1], "ops": oplist, "zone": zt[0]},
+                     client_cfgs([1, 2]), st.lists(op_strategy([k for k in ops.KINDS if k != "create_schedule"], client_of),
+                                                   min_size=1, max_size=3),
+                     gen.dst_timestamps())
+
+
+def cases_slow_device():
+    """A device that takes seconds (real time) to answer the login: the operation must simply wait, and the next
+    operation must still be its own exchange."""
+    out = []
+    for secs in (6.0, 11.0):
+        out.append({"clients": CLIENTS2, "t0": 1_700_000_000, "zone": "UTC", "slow_login": secs, "ops": [
+            {"client": 0, "kind": "get_state", "args": {}, "session": "aa000001", "gap": 1},
+            {"client": 0, "kind": "control_on", "args": {"minutes": 5}, "session": "aa000002", "gap": 1},
+            {"client": 1, "kind": "get_shutter_state", "args": {}, "session": "bb000001", "gap": 1},
+            {"client": 1, "kind": "stop", "args": {}, "session": "bb000002", "gap": 1}]})
+    return out
+
+
 def strat_interleaved():
     def for_types(types):
         kinds_of = {1: ops.KINDS1, 2: ops.KINDS2}
@@ -248,6 +275,8 @@ def subchecks(tier):
         Sub("pairs", make_body("pairs"), cases=cases_pairs, shards=16, exhaustive=True),
         Sub("pairs-random-args", make_body("pairs-random-args"), strategy=strat_pairs_random, n=256 * 50 if big else 600,
             shards=16 if big else 2),
+        Sub("dst-clock", make_body("dst-clock"), strategy=strat_dst_clock, n=20_000 if big else 500, shards=16 if big else 2),
         Sub("sequences", make_body("sequences"), strategy=strat_seq, n=60_000 if big else 800, shards=16 if big else 4),
+        *([Sub("slow-device", make_body("slow-device"), cases=cases_slow_device, shards=2, exhaustive=True)] if big else []),
         Sub("interleaved", make_body("interleaved"), strategy=strat_interleaved, n=60_000 if big else 1000, shards=16 if big else 4),
     ]
